@@ -464,9 +464,10 @@ func genGated(t *rapid.T) Case {
 func init() {
 	vt.PropertyID = "C09"
 	vt.Register("layers-mem", 1.0, genLayersMem, checkLayers)
-	vt.Register("layers-disk", 0.12, genLayersDisk, checkLayers)
-	vt.Register("dao", 0.4, genDao, checkLayers)
-	vt.Register("tridiff", 0.06, genTri, checkTri)
-	vt.Register("gated", 0.4, genGated, checkGated)
-	vt.Register("stress", 0.005, genStress, checkStress)
+	vt.Register("layers-disk", 0.1, genLayersDisk, checkLayers)
+	vt.Register("dao", 0.3, genDao, checkLayers)
+	vt.Register("tridiff", 0.04, genTri, checkTri)
+	vt.Register("gated", 0.3, genGated, checkGated)
+	vt.Register("stress", 0.01, genStress, checkStress)
+	vt.Register("leveldb-reuse", 0.002, genReuse, checkReuse)
 }
